@@ -179,3 +179,50 @@ func VerifC06Text(args []string) {
 	DumpTable(e, false)
 	IndentByParentheses(text)
 }
+
+func init() {
+	vfRegister("VerifC06Op", VerifC06Op)
+}
+
+// VerifC06Op: args = [operator name, operand count]. Every built-in operator applied to 0..3 operands of
+// ANY supported type (arbitrary int64 / bool, strings, lists, nil), directly and as the program
+// (name a0 …) compiled with and without optimisations over constants and over variables: a value or an
+// error, never a panic.
+func VerifC06Op(args []string) {
+	name := args[0]
+	n, _ := strconv.Atoi(args[1])
+	op, ok := vfBuiltin(name)
+	vfAssert(ok && op != nil, "operator present")
+	params := make([]Value, n)
+	src := "(" + name
+	vals := map[string]Value{}
+	for i := range params {
+		params[i] = vfAnyValue("a" + strconv.Itoa(i))
+		src += " a" + strconv.Itoa(i)
+		vals["a"+strconv.Itoa(i)] = params[i]
+	}
+	src += ")"
+	op(nil, params)
+	vfReach("op-ran")
+	for _, optimize := range []bool{false, true} {
+		// operands as variables …
+		conf := NewConfig(Optimizations(optimize))
+		for i := range params {
+			conf.VariableKeyMap["a"+strconv.Itoa(i)] = VariableKey(i + 1)
+		}
+		if e, err := Compile(conf, src); err == nil {
+			e.Eval(&Ctx{VariableFetcher: MapVarFetcher(vals)})
+			e.TryEval(&Ctx{VariableFetcher: MapVarFetcher(vals)})
+			Dump(e)
+		}
+		// … and as constants (folded at compile time when optimisations are on)
+		conf = NewConfig(Optimizations(optimize))
+		for i := range params {
+			conf.ConstantMap["a"+strconv.Itoa(i)] = params[i]
+		}
+		if e, err := Compile(conf, src); err == nil {
+			e.Eval(&Ctx{VariableFetcher: MapVarFetcher(vals)})
+			Dump(e)
+		}
+	}
+}
